@@ -147,6 +147,8 @@ type Dgram struct {
 	Spec    *MsgSpec
 	NilKey  bool
 	Genuine bool
+	// Authentic: built by a key holder (valid checksum) but NOT a well-formed protected message
+	Authentic bool
 }
 
 type Stats struct {
